@@ -1,9 +1,86 @@
 import GnpyDriver.JsonUtil
+import GnpyDriver.C03
 import GnpyModel
 /- driver handlers for property C05 (ops are named "c05.<name>") -/
 open Lean
 namespace Gnpy.Drv.C05
+open Gnpy.Gn Gnpy.Fiber
 
-def handlers : List (String × Handler) := []
+def getSpan (j : Json) : R (Span Float × Bool) := do
+  let fib ← C03.getFibre (← fld j "fibre")
+  let lumpedKm ← fList C03.getPair j "lumped"
+  let s : Span Float := { fib := fib, conIn := ← fF j "con_in", attIn := ← fF j "att_in", conOut := ← fF j "con_out",
+                          lumped := mkLumped lumpedKm, pmdCoef := ← fF j "pmd_coef" }
+  return (s, lumpedPositionsOk fib.len lumpedKm)
+
+def getAcc (j : Json) : R (List (Acc Float)) := do
+  let cd ← fList getF j "cd"
+  let pmd ← fList getF j "pmd"
+  let pdl ← fList getF j "pdl"
+  let lat ← fList getF j "latency"
+  return (cd.zip (pmd.zip (pdl.zip lat))).map (fun x => { cd := x.1, pmd := x.2.1, pdl := x.2.2.1, latency := x.2.2.2 })
+
+def jAcc (l : List (Acc Float)) : List (String × Json) :=
+  [("cd", jList jF (l.map (·.cd))), ("pmd", jList jF (l.map (·.pmd))), ("pdl", jList jF (l.map (·.pdl))),
+   ("latency", jList jF (l.map (·.latency)))]
+
+def allSome : List (Option β) → Option (List β)
+  | [] => some []
+  | none :: _ => none
+  | some x :: rest => (allSome rest).map (x :: ·)
+
+/-- `Fiber.__call__` with Raman off: powers and accumulated figures behind the span -/
+def spanH (j : Json) : R Json := do
+  let (s, ok) ← getSpan j
+  if !ok then return jObj [("error", jStr "NetworkTopologyError")]
+  let f ← fList getF j "f"
+  let p ← fList getF j "p"
+  let beta3 ← fOpt (getList getF) j "beta3"
+  let init ← getAcc (← fld j "init")
+  let b3s : List (Option Float) := match beta3 with
+    | some l => l.map some
+    | none => f.map (fun _ => none)
+  let outs := allSome ((f.zip p).map (fun x => spanOut s x.1 x.2))
+  let contribs := allSome ((f.zip b3s).map (fun x => spanContribution s x.1 x.2))
+  match outs, contribs with
+  | some o, some c =>
+    let acc := (init.zip c).map (fun x => accStep x.1 x.2)
+    return jObj ([("pch", jList jF o), ("loss", jOpt jF (spanLossDb s))] ++ jAcc acc)
+  | _, _ => return jObj [("error", jStr "SpectrumError")]
+
+inductive El where
+  | span (s : Span Float) (beta3 : Option (List Float))
+  | lumped (pmd pdl : List Float)
+
+def getEl (j : Json) : R El := do
+  match ← fStr j "kind" with
+  | "fiber" =>
+    let (s, _) ← getSpan j
+    return .span s (← fOpt (getList getF) j "beta3")
+  | _ => return .lumped (← fList getF j "pmd") (← fList getF j "pdl")
+
+/-- contribution of one element to every channel -/
+def elContribs (f : List Float) : El → Option (List (Contribution Float))
+  | .span s beta3 =>
+    let b3s : List (Option Float) := match beta3 with
+      | some l => l.map some
+      | none => f.map (fun _ => none)
+    allSome ((f.zip b3s).map (fun x => spanContribution s x.1 x.2))
+  | .lumped pmd pdl => some ((pmd.zip pdl).map (fun x => lumpedContribution x.1 x.2))
+
+/-- accumulated CD / PMD / PDL / latency over a path of fibres, ROADMs, amplifiers (in the given order) -/
+def pathH (j : Json) : R Json := do
+  let els ← fList getEl j "elements"
+  let f ← fList getF j "f"
+  let init ← getAcc (← fld j "init")
+  match allSome (els.map (elContribs f)) with
+  | none => return jObj [("error", jStr "SpectrumError")]
+  | some cs =>
+    -- cs : per element, per channel; fold the path channel by channel
+    let idx := List.range f.length
+    let acc := (init.zip idx).map (fun x => accPath x.1 (cs.filterMap (fun perEl => perEl[x.2]?)))
+    return jObj (jAcc acc)
+
+def handlers : List (String × Handler) := [("c05.span", spanH), ("c05.path", pathH)]
 
 end Gnpy.Drv.C05
